@@ -18,7 +18,8 @@ EXPLANATION = (
     "delimited template; (R8) register liveness: a register read by an emitted instruction is not "
     "overwritten by user code emitted since the template set it, and a comparison / arithmetic result in A "
     "is read before the next instruction overwrites it; (R9) the error edges of the "
-    "fetch-execute loop leave the context stack as the failing statement found it (shared with C05.R6).")
+    "fetch-execute loop leave the context stack as the failing statement found it (shared with C05.R6)."
+    " (R10) RESUME label cuts the VM stacks back to the depths recorded by the outermost active call (shared with C05.R11).")
 NOT_DECIDED = [
     "well-formedness of the instruction list for one given program (that is a run of the generator)",
     "labels whose name is computed at generation time (else-if-N, caseN): depths at those sites "
